@@ -415,6 +415,15 @@ def run(ctx, chk):
              "types): no guard, clamp or second opinion between the stored value and the caller (what is serialized is what the tree stores)")
     import rules as _rg
     _rg.check_field_getters(chk, "C03.getters", prog, eff, names=('cbor_string_length', 'cbor_bytestring_length', 'cbor_string_handle', 'cbor_bytestring_handle', 'cbor_string_chunk_count', 'cbor_bytestring_chunk_count', 'cbor_string_chunks_handle', 'cbor_bytestring_chunks_handle', 'cbor_array_size', 'cbor_map_size', 'cbor_array_handle', 'cbor_map_handle', 'cbor_tag_value', 'cbor_ctrl_value', 'cbor_float_get_width', 'cbor_int_get_width', 'cbor_typeof'))
+    chk.rule("C03.capacity-field", "a block installed as a container's storage comes with its element capacity, and a recorded capacity is the one the "
+             "installed block was requested with: the slots between count and capacity exist (the serializer walks `allocated`-bounded storage it trusts; shared with C12.capacity-field)")
+    import ownership as _Ocf
+    from props.c12 import check_capacity_field as _ccf
+    _ccf(chk, "C03.capacity-field", prog, eff, _Ocf.PathCache(prog, eff))
+    chk.rule("C03.set-handle", "the set-handle routines attach what they are given on every path - data pointer and length become the arguments, with no "
+             "early way out for a block the item already holds - and obtain or release no memory (what is serialized is the payload and length last attached)")
+    import rules as _rsh
+    _rsh.check_set_handle(chk, "C03.set-handle", prog, eff)
     chk.exhaustive = True
 
 
